@@ -27,8 +27,9 @@ MUTS = {
                                 "        if run_first:\n            self.insert(i - 1, Reduce())\n")],
     "M6-append-forgets-pop": [("        if pop_result:\n            self.insert(-1, Pop())\n",
                                "        if pop_result and False:\n            self.insert(-1, Pop())\n")],
-    "M7-magic-pop-at-index": [("self.insert(-1 if index == -1 else index + 1, Pop())",
-                               "self.insert(-1 if index == -1 else index, Pop())")],
+    "M7-magic-pop-at-index": [("        self.insert(index + 1, Pop())\n", "        self.insert(index, Pop())\n")],
+    "M11-magic-negative-unresolved": [("            index = max(len(self) + index, 0)\n", "            index = index if index == -1 else max(len(self) + index, 0)\n")],
+    "M12-accept-none-arg": [("        return isinstance(obj, (int, float, str, bytes))", "        return obj is None or isinstance(obj, (int, float, str, bytes))")],
     "M8-append-after-stop": [("        self.insert(-1, Tuple())\n        self.insert(-1, Reduce())\n        if pop_result:",
                               "        self.insert(-1, Tuple())\n        self._opcodes.append(Reduce())\n        if pop_result:")],
     "M9-skip-only-proto": [("while isinstance(self[i], (Proto, Frame)):", "while isinstance(self[i], Proto):")],
